@@ -495,12 +495,12 @@ def _norm(src: str) -> str:
 
 # ------------------------------------------------------------------------------------------ R-HALL-PRECOND
 def rule_hall_precondition(ctx: Ctx, prog: Program) -> None:
-    """The capacity filtering of gcc (Quimper et al.) merges an interval into its neighbour when its remaining capacity *reaches* zero; an
-    interval whose capacity is zero from the start is never merged and never refuted, and the pointer chases (path_set) then walk chains
-    that do not contain their end marker: the call never returns.  The algorithm therefore has a precondition: no variable bound sits on
-    a value whose capacity (upper bound) is zero.  Rule: in compute_domains_gcc, before the bounds are sorted and ranked (update_bounds),
-    every variable's MIN is moved right and its MAX moved left past zero-capacity values (skip_non_null_elements_right/left on the
-    partial sums of the CAPACITIES), with a failure when they cross."""
+    """The Hall-interval filtering of gcc (Quimper et al.) ranks the variable bounds and assumes MIN <= MAX for every variable.  Since fix
+    0d60ece compute_domains_gcc first moves every bound off the values whose capacity is zero (a pruning step); a variable whose bounds
+    cross in that step has an empty domain, and if it were ranked the pointer chases (path_set) would walk chains that do not contain
+    their end marker: the call would never return.  Rule: on every path of compute_domains_gcc that stores into the domains before the
+    bounds are sorted and ranked (update_bounds), the storing loop has a body path that returns PROP_INCONSISTENCY.  (Whether the bounds
+    are moved at all is a matter of pruning strength, not of termination, since fix a67ad7b: see rule_hall_intervals.)"""
     ctx.rule("R-HALL-PRECOND")
     fn = prog.func(f"{prog.package}.propagators.gcc_propagator", "compute_domains_gcc")
     ctx.fn(fn.fq)
@@ -508,7 +508,7 @@ def rule_hall_precondition(ctx: Ctx, prog: Program) -> None:
     it = Interp(prog, inline_filter=_never)
     res = it.run(fn)
     dom = fn.params[0]
-    n_reach = 0
+    n_reach = n_moved = 0
     bad: List[str] = []
     for r in res:
         evs = r.state.trace
@@ -549,21 +549,136 @@ def rule_hall_precondition(ctx: Ctx, prog: Program) -> None:
                                 okk["all"] = okk["all"] or covers
                 if bp.outcome == "return" and it.scalar(bp.state, bp.value) == K(PI):
                     okk["fail"] = True
-        if not (okk["MIN"] and okk["MAX"] and okk["fail"] and okk["all"]):
-            missing = [k for k in ("MIN", "MAX") if not okk[k]]
-            bad.append(("bounds not moved off zero-capacity values: " + "/".join(missing)) if missing else
-                       ("no failure when the moved bounds cross" if not okk["fail"] else "the loop does not cover every variable"))
+        # any store into the domains before the ranking, recognised pre-pass or not
+        moved = any(x.kind == "store" and x.root == dom for e in evs[: ub[0]] if e.kind == "loop" and e.loop is not None
+                    for bp in e.loop.paths for x in bp.events) or any(x.kind == "store" and x.root == dom for x in evs[: ub[0]])
+        n_moved += 1 if moved else 0
+        if moved and not okk["fail"]:
+            bad.append("no failure when the moved bounds cross")
     if n_reach == 0:
         raise AnalysisError(f"{fn.fq}: no path reaches update_bounds")
     if bad:
-        ctx.violation("R-HALL-PRECOND", fn.path, fn.name, "zero-capacity-bounds", fn.loc(),
-                      f"compute_domains_gcc ranks and filters the bounds without first moving every variable's bounds off the values whose capacity is "
-                      f"zero ({bad[0]}): an interval of capacity zero is never merged nor refuted by the Hall-interval filtering and path_set then walks "
-                      "a pointer chain that does not contain its end marker -- the call never returns (e.g. domains [(2,2),(3,4),(3,4),(3,3),(2,4)], "
-                      "parameters [2, 0,0,1, 1,0,3])")
+        ctx.violation("R-HALL-PRECOND", fn.path, fn.name, "crossed-bounds-ranked", fn.loc(),
+                      f"compute_domains_gcc moves variable bounds before it sorts and ranks them but has no failure exit when a variable's bounds cross "
+                      f"({bad[0]}): an empty domain enters the Hall-interval filtering, whose rank arithmetic assumes MIN <= MAX, and path_set then walks "
+                      "a pointer chain that does not contain its end marker -- the call never returns (e.g. domains [(1,1),(1,1),(1,1),(0,0)], "
+                      "parameters [0, 0,0, 2,0])")
     else:
-        ctx.ok("R-HALL-PRECOND", "compute_domains_gcc: every bound is moved off zero-capacity values (failure when they cross) before ranking",
-               sample={"paths_reaching_update_bounds": n_reach})
+        ctx.ok("R-HALL-PRECOND", "compute_domains_gcc: no variable whose bounds were moved before the ranking reaches it with crossed bounds "
+               "(failure exit in the moving loop)" if n_moved else "compute_domains_gcc: the bounds are ranked as received",
+               sample={"paths_reaching_update_bounds": n_reach, "paths_moving_bounds_first": n_moved})
+
+
+def _merge_idioms(fn: FuncInfo) -> List[Tuple[str, str, ast.AST]]:
+    """(capacity array D, pointer array T, enclosing loop) for every `D[z] -= 1 ; if D[z] == 0: T[z] = z +- 1` in the function: the
+    merge of an interval into its neighbour when its remaining capacity reaches zero."""
+    out: List[Tuple[str, str, ast.AST]] = []
+
+    def blocks(node: ast.AST):
+        for name in ("body", "orelse", "finalbody"):
+            b = getattr(node, name, None)
+            if isinstance(b, list) and b and isinstance(b[0], ast.stmt):
+                yield b
+                for s in b:
+                    if not isinstance(s, (ast.For, ast.While, ast.FunctionDef)):
+                        yield from blocks(s)
+
+    def dec_target(s: ast.stmt) -> Optional[ast.Subscript]:
+        if isinstance(s, ast.AugAssign) and isinstance(s.op, ast.Sub) and isinstance(s.value, ast.Constant) and s.value.value == 1 \
+                and isinstance(s.target, ast.Subscript) and isinstance(s.target.value, ast.Name):
+            return s.target
+        if isinstance(s, ast.Assign) and len(s.targets) == 1 and isinstance(s.targets[0], ast.Subscript) and isinstance(s.targets[0].value, ast.Name) \
+                and isinstance(s.value, ast.BinOp) and isinstance(s.value.op, ast.Sub) and isinstance(s.value.right, ast.Constant) and s.value.right.value == 1 \
+                and ast.dump(s.value.left) == ast.dump(ast.Subscript(value=s.targets[0].value, slice=s.targets[0].slice, ctx=ast.Load())):
+            return s.targets[0]
+        return None
+
+    for loop in ast.walk(fn.node):
+        if not isinstance(loop, (ast.For, ast.While)):
+            continue
+        for blk in blocks(loop):
+            for k, s in enumerate(blk):
+                tg = dec_target(s)
+                if tg is None:
+                    continue
+                cell = ast.dump(ast.Subscript(value=tg.value, slice=tg.slice, ctx=ast.Load()))
+                for s2 in blk[k + 1:]:
+                    if not (isinstance(s2, ast.If) and isinstance(s2.test, ast.Compare) and len(s2.test.ops) == 1 and isinstance(s2.test.ops[0], ast.Eq)
+                            and ast.dump(s2.test.left) == cell and isinstance(s2.test.comparators[0], ast.Constant) and s2.test.comparators[0].value == 0):
+                        continue
+                    for s3 in s2.body:
+                        if isinstance(s3, ast.Assign) and len(s3.targets) == 1 and isinstance(s3.targets[0], ast.Subscript) \
+                                and isinstance(s3.targets[0].value, ast.Name) and ast.dump(s3.targets[0].slice) == ast.dump(tg.slice) \
+                                and isinstance(s3.value, ast.BinOp) and isinstance(s3.value.op, (ast.Add, ast.Sub)) \
+                                and ast.dump(s3.value.left) == ast.dump(tg.slice):
+                            out.append((tg.value.id, s3.targets[0].value.id, loop))
+    return out
+
+
+def rule_hall_intervals(ctx: Ctx, prog: Program) -> None:
+    """Second precondition of the same filtering, read off its four sibling passes: an interval between two consecutive bounds is merged
+    into its neighbour at the moment its remaining capacity *reaches* zero (`D[z] -= 1; if D[z] == 0: T[z] = z +- 1`).  An interval whose
+    capacity is zero from the start (all its values have capacity zero) never takes that branch: its counter goes negative, it is never
+    skipped, and the Hall-interval marking then chases a pointer chain without its end marker.  The two lower-capacity passes test the
+    initial capacity against zero when they initialise the pointers; the rule demands the same of every pass that uses the idiom:
+    before the main loop, some initialisation loop has a body path on which the initial capacity of interval i is known to be zero and
+    which stores into the pointer array, and another on which it is known to be non-zero."""
+    ctx.rule("R-HALL-PRECOND")
+    mod = f"{prog.package}.propagators.gcc_propagator"
+    n_inst = 0
+    m = prog.modules.get(mod)
+    if m is None:
+        raise AnalysisError(f"anchor module vanished: {mod}")
+    for fn in list(m.functions.values()):
+        idioms = _merge_idioms(fn)
+        if not idioms:
+            continue
+        ctx.fn(fn.fq)
+        it = Interp(prog, inline_filter=_never)
+        res = it.run(fn)
+        for D, T, loop_node in {(d, t, id(l)): (d, t, l) for d, t, l in idioms}.values():
+            n_inst += 1
+            verdicts: List[bool] = []
+            for r in res:
+                evs = [e for e in r.state.trace if e.kind in ("loop", "iter") and e.loop is not None]
+                top = min((e.depth for e in evs), default=0)
+                evs = [e for e in evs if e.depth == top]
+                if not any(e.loop.node is loop_node for e in evs):
+                    continue
+                zero_path = nonzero_path = False
+                for e in evs:
+                    l = e.loop
+                    if l.node is loop_node:
+                        break
+                    if l.index is None:
+                        continue
+                    for bp in l.paths:
+                        try:
+                            dv = it.scalar(bp.state, it.load(bp.state, View(D, (l.index,))))
+                        except AnalysisError:
+                            continue
+                        if not isinstance(dv, Aff):
+                            continue
+                        f = bp.state.facts
+                        if f.decide(cmp_cond("<=", dv, ZERO)) is True:
+                            if any(x.kind == "store" and x.root == T for x in bp.events):
+                                zero_path = True
+                        elif f.decide(cmp_cond("!=", dv, ZERO)) is True or f.decide(cmp_cond(">", dv, ZERO)) is True:
+                            nonzero_path = True
+                verdicts.append(zero_path and nonzero_path)
+            if not verdicts:
+                raise AnalysisError(f"{fn.fq}: no path reaches the loop with the merge idiom")
+            if not all(verdicts):
+                ctx.violation("R-HALL-PRECOND", fn.path, fn.name, f"zero-capacity-intervals:{D}", (fn.path, getattr(loop_node, "lineno", fn.node.lineno)),
+                              f"{fn.name} merges an interval into its neighbour only when its remaining capacity {D}[z] *reaches* zero, and the "
+                              f"initialisation of {T} does not single out the intervals whose capacity is zero from the start (every value between "
+                              "two consecutive bounds has capacity zero): such an interval is never skipped, its counter goes negative, and on an "
+                              "infeasible instance path_set then chases a pointer chain without its end marker -- the call never returns (e.g. "
+                              "domains [(0,1),(0,3),(1,2)], parameters [0, 1,0,1,0, 1,0,1,0])")
+            else:
+                ctx.ok("R-HALL-PRECOND", f"{fn.name}: the initialisation of {T} singles out the intervals whose initial capacity {D}[i] is zero",
+                       sample={"function": fn.name, "capacity": D, "pointers": T})
+    ctx.floor("R-HALL-PRECOND", n_inst, 4)
 
 
 # ------------------------------------------------------------------------------------------ generic modular analysis (call chains)
